@@ -382,6 +382,119 @@ class RuleMWKR(_Rule):
 
 
 # ---------------------------------------------------------------------------
+# most_operations_remaining: counting the entries of uncompleted_operations() per job
+# ---------------------------------------------------------------------------
+UC_HAS = "$cache_has:uncompleted_operations"
+UC_VAL = "$cache_val:uncompleted_operations"
+_CNT = z3.Function("CountOfJob", z3.ArraySort(z3.IntSort(), z3.IntSort()), z3.ArraySort(z3.IntSort(), z3.IntSort()),
+                   z3.IntSort(), z3.IntSort(), z3.IntSort())
+
+
+def count_of_job(h, L, i, j):
+    """spec function: how many of the first i entries of the list L are operations of job j"""
+    return _CNT(h.farr("job_id"), h.elarr(L), i, j)
+
+
+def count_definition():
+    """the recursive definition of the spec function CountOfJob (recursion on i, for every job-id field array and
+    every list content: a conservative definition, assumed at the entry of the functions that speak about it)"""
+    IA = z3.ArraySort(z3.IntSort(), z3.IntSort())
+    F, a = z3.Const("?cF", IA), z3.Const("?ca", IA)
+    i, j = bv("ci"), bv("cj")
+    return z3.And(
+        forall([F, a, j], _CNT(F, a, 0, j) == 0, patterns=[_CNT(F, a, 0, j)]),
+        forall([F, a, i, j], imp(i >= 0, _CNT(F, a, i + 1, j) == _CNT(F, a, i, j) + z3.If(
+            z3.Select(F, z3.Select(a, i)) == j, 1, 0)), patterns=[_CNT(F, a, i + 1, j)]))
+
+
+class _CountRule(Contract):
+    """shared by most_operations_remaining_rule and most_operations_remaining_score: the accumulation loop leaves, for
+    every job, the number of entries of uncompleted_operations() that belong to it"""
+    acc = ""
+    params = {"dispatcher": REF("Dispatcher")}
+    properties = ("C04",)
+
+    def ghost_entry(self, c, st):
+        st.assume(count_definition(), "definition:CountOfJob")
+
+    def loop_inv(self, k):
+        h, d = k.h, k["dispatcher"]
+        D = Disp(h, d)
+        acc = k.v(self.acc)
+        UC = h.get(UC_VAL, d)
+        j = bv("jc")
+        return [("counted-so-far", z3.And(
+            acc >= k.h0.alloc, acc < h.alloc, h.len(acc) == D.it.J, h.get(UC_HAS, d) != 0, UC != acc, k.n == h.len(UC),
+            forall([j], imp(rng(j, 0, D.it.J), h.at(acc, j) == count_of_job(h, UC, k.i, j)),
+                   patterns=[h.at(acc, j)])))] + reach(h, d) + cache_ok(h, d) + cache_effect(k.h0, h, d)
+
+    @property
+    def loops(self):
+        def mod(k):
+            return Frame(lists=[k.v(self.acc)])
+        return {0: LoopSpec("for operation in dispatcher.uncompleted_operations()", self.loop_inv, mod)}
+
+
+def _uc_frame(c, d):
+    fr = query_frame(c, d)
+    fr.fields["$$og_idx"] = [d]
+    fr.alloc_olists = True
+    return fr
+
+
+@register
+class RuleMOR(_CountRule, _Rule):
+    """most_operations_remaining_rule: returns an available operation whose job has the most entries in
+    uncompleted_operations() (= unscheduled followed by ongoing: post-condition of that query's body)"""
+    name = "most_operations_remaining_rule"
+    acc = "job_remaining_operations"
+    ret = REF("Operation")
+
+    def requires(self, c):
+        return _Rule.requires(self, c)
+
+    def modifies(self, c):
+        return _uc_frame(c, c["dispatcher"])
+
+    def ensures(self, c):
+        h, d, o = c.h, c["dispatcher"], c.result
+        D = Disp(h, d)
+        A, UC = h.get(AVAIL_VAL, d), h.get(UC_VAL, d)
+        r = bv("rb")
+        n = h.len(UC)
+        return _Rule.ensures(self, c) + [("selected-is-best-under-the-criterion", z3.And(
+            h.get(UC_HAS, d) != 0, forall([r], imp(
+                rng(r, 0, h.len(A)),
+                count_of_job(h, UC, n, D.it.jid(o)) >= count_of_job(h, UC, n, D.it.jid(h.at(A, r)))),
+                patterns=[h.at(A, r)])))]
+
+
+@register
+class ScoreMOR(_CountRule):
+    """most_operations_remaining_score: a scoring function (abstract scoring contract) whose score of job j is the
+    number of entries of uncompleted_operations() that belong to job j"""
+    name = "most_operations_remaining_score"
+    acc = "scores"
+    ret = LIST(INT)
+
+    def requires(self, c):
+        return AbstractScore().requires(c)
+
+    def modifies(self, c):
+        return _uc_frame(c, c["dispatcher"])
+
+    def ensures(self, c):
+        h, d = c.h, c["dispatcher"]
+        D = Disp(h, d)
+        UC = h.get(UC_VAL, d)
+        j = bv("jc")
+        return AbstractScore().ensures(c) + [("score-is-the-number-of-uncompleted-operations-of-the-job", z3.And(
+            h.get(UC_HAS, d) != 0, forall([j], imp(
+                rng(j, 0, D.it.J), h.at(c.result, j) == count_of_job(h, UC, h.len(UC), j)),
+                patterns=[h.at(c.result, j)])))]
+
+
+# ---------------------------------------------------------------------------
 # BaseSolver.__call__
 # ---------------------------------------------------------------------------
 @register
